@@ -136,7 +136,7 @@ def gen_recipes(rnd, n):
         elif r < 0.88:
             out.append({"k": "rstmts", "seed": sd, "count": 3, "depth": rnd.choice([2, 3, 5]), "style": style, "render": render})
         elif r < 0.94:
-            seqs = [[rnd.randrange(12) for _ in range(rnd.randrange(0, 6))] for _ in range(20)]
+            seqs = [[rnd.randrange(16) for _ in range(rnd.randrange(0, 6))] for _ in range(20)]
             ctx = rnd.choice(cases.DECL_CONTEXTS + cases.TN_CONTEXTS)
             if ctx != "param":
                 seqs = [[x % 8 for x in s] for s in seqs]
